@@ -126,6 +126,22 @@ func c02Exec(c *core.Ctx, in c02Case) {
 			fail("encode|"+in.Msg+"|bytes-differ-from-table-encoding", fmt.Sprintf("via %s: encoder emits %x, table-driven encoding is %x", ent, clip(out), clip(want)))
 			return
 		}
+		// the produced octets stay what they are while the library is used further: another message of the family is
+		// encoded through the same entry point, then this message once more (a result that aliases pooled or
+		// package-level scratch storage is overwritten by the later calls)
+		if om, or := c02Other(m, entry); om != nil {
+			_, _, _ = implEncode(om, entry, or, nil)
+		}
+		overwritten := !bytes.Equal(out, want)
+		again, _, _ := implEncode(m, entry, r, nil)
+		if overwritten || !bytes.Equal(out, want) {
+			fail("encode|"+in.Msg+"|result-overwritten-by-later-encode", fmt.Sprintf("via %s: the octets returned by the encoder changed to %x when another message was encoded afterwards", ent, clip(out)))
+			return
+		}
+		if !bytes.Equal(again, want) {
+			fail("encode|"+in.Msg+"|second-encoding-differs", fmt.Sprintf("via %s: encoding the same message a second time emits %x, first time %x", ent, clip(again), clip(want)))
+			return
+		}
 		d := implDecode(m, entry, append([]byte{}, out...))
 		if d.pi != nil || d.err != nil {
 			fail("decode|"+in.Msg+"|rejects-own-encoding", fmt.Sprintf("via %s: decoding the encoder's output fails: %v %v", ent, d.err, d.pi))
@@ -150,6 +166,34 @@ func c02Exec(c *core.Ctx, in c02Case) {
 			return
 		}
 	}
+}
+
+// c02Other builds a small message of the same family with a different message type (all optional elements absent),
+// used as "the next message the caller encodes".
+func c02Other(m *bind.Msg, entry string) (*bind.Msg, *implResult) {
+	spec := loadSpec()
+	for mi := range spec.Messages {
+		o := &spec.Messages[mi]
+		if o.Family != m.Family || o.Name == m.Name || o.MsgType == m.MsgType {
+			continue
+		}
+		v := c02Value(o, c02Case{Msg: o.Name, Elems: c02MandElems(o)})
+		body, err := buildMessage(v)
+		if err != nil {
+			return nil, nil
+		}
+		r := &implResult{body: body, name: o.Name}
+		if entry != "direct" {
+			w, _ := refcodec.Encode(v)
+			hl := 3
+			if o.Family == "gsm" {
+				hl = 4
+			}
+			r.msg = wrapMessage(o, body, w[:hl])
+		}
+		return o, r
+	}
+	return nil, nil
 }
 
 // enumeration --------------------------------------------------------------------------------------
